@@ -1,6 +1,131 @@
 package main
 
-// C14 mutation events: implemented later; placeholder keeps the executor complete.
+import (
+	"github.com/0xrawsec/sod"
+)
+
+// scribble overwrites every mutable part of an object in place: scalars,
+// slice elements (and appends), map entries, pointer targets, nested structs,
+// values held in interfaces.
+func scribble(r *Rec) {
+	r.K += 1000
+	r.S += "~"
+	r.A += 1000
+	r.U += 1000
+	r.F += 1000
+	r.N += "~"
+	r.T = r.T.AddDate(1, 0, 0)
+	r.E += 1000
+	if r.P != nil {
+		r.P.X += 1000
+		r.P.Y += "~"
+	}
+	r.Z += "~"
+	r.V += 1000
+	r.W += "~"
+	for i := range r.L {
+		r.L[i] += 1000
+	}
+	r.L = append(r.L, 31337)
+	for k, v := range r.M {
+		for _, s := range v {
+			if s != nil {
+				s.X += 1000
+				s.Y += "~"
+			}
+		}
+		r.M[k] = append(v, &Sub{X: 31337})
+	}
+	if r.M != nil {
+		r.M["scribbled"] = nil
+	}
+	if r.Q != nil {
+		*r.Q += 1000
+	}
+	switch t := r.I.(type) {
+	case map[string]interface{}:
+		t["scribbled"] = 1
+		for k, v := range t {
+			if l, ok := v.([]interface{}); ok && len(l) > 0 {
+				l[0] = "scribbled"
+				t[k] = l
+			}
+			if m, ok := v.(map[string]interface{}); ok {
+				m["scribbled"] = 1
+			}
+		}
+	case []interface{}:
+		if len(t) > 0 {
+			if m, ok := t[0].(map[string]interface{}); ok {
+				m["scribbled"] = 1
+				for _, v := range m {
+					if mm, ok := v.(map[string]interface{}); ok {
+						mm["scribbled"] = 1
+					}
+				}
+			}
+			t[0] = "scribbled"
+		}
+	case *Sub:
+		t.X += 1000
+	}
+	for i := range r.B {
+		r.B[i] ^= 0xff
+	}
+}
+
+// C14 mutation events.
+//
+//	what = "arg":   scribble over the object that was passed to the last write of the slot
+//	what = "ret":   read the slot (Get), scribble over the returned object
+//	what = "all":   read everything (All), scribble over every returned object
+//	what = "share": read the slot twice, scribble over the first result, re-project the second
 func (r *Runner) mutateImpl(op *Op) {
-	r.emit(ev{"ev": "mutate", "what": op.What, "slot": op.Slot, "c": "skipped"})
+	e := ev{"ev": "mutate", "what": op.What, "slot": op.Slot, "c": "ok"}
+	switch op.What {
+	case "arg":
+		if o := r.lastArg[op.Slot]; o != nil {
+			scribble(asRec(o))
+		} else {
+			e["c"] = "none"
+		}
+	case "ret":
+		o, err := r.db.Get(r.ident(op.Slot))
+		e["c"] = classify(err)
+		if err == nil {
+			scribble(asRec(o))
+		}
+	case "all":
+		objs, err := r.db.All(r.proto())
+		e["c"] = classify(err)
+		for _, o := range objs {
+			scribble(asRec(o))
+		}
+	case "share":
+		var o1, o2 sod.Object
+		var err error
+		o1, err = r.db.Get(r.ident(op.Slot))
+		if err == nil {
+			if op.N%2 == 0 {
+				o2, err = r.db.GetByUUID(r.proto(), o1.UUID())
+			} else {
+				var objs []sod.Object
+				objs, err = r.db.All(r.proto())
+				for _, x := range objs {
+					if x.UUID() == o1.UUID() {
+						o2 = x
+					}
+				}
+			}
+		}
+		e["c"] = classify(err)
+		if err == nil && o2 != nil {
+			e["before"] = r.project(o2)
+			scribble(asRec(o1))
+			e["after"] = r.project(o2)
+		} else if err == nil {
+			e["c"] = "none"
+		}
+	}
+	r.emit(e)
 }
